@@ -14,6 +14,7 @@ from verif.core.runner import HarnessError
 from verif.vsched import runtime as vrt
 
 _INSTALLED = False
+EXIT_JITTER = 1e-3
 M = None  # namespace of imported product modules
 
 
@@ -166,7 +167,9 @@ def install():
                 ev('output', ref=ref)
 
         def exit_enabled(self):
-            return (not self._done) and vrt.RT.now >= self.launched_at + self._duration
+            # a task may exit up to EXIT_JITTER virtual seconds early: lets the explorer place an exit in the middle of a
+            # chain of notification hops that all carry (almost) the same virtual time-stamp
+            return (not self._done) and vrt.RT.now >= self.launched_at + self._duration - EXIT_JITTER
 
         def finish(self, reason=None):
             if self._done:
